@@ -11,6 +11,7 @@ import TypedPathVerif.Spec.StdSpec
 import TypedPathVerif.Spec.StdBuf
 import TypedPathVerif.Spec.HashSpec
 import TypedPathVerif.Spec.Utf8
+import TypedPathVerif.Spec.Lossy
 import TypedPathVerif.Model.Comb.Windows
 
 open TP
@@ -282,6 +283,16 @@ def step (line : String) : String :=
     -- core::str::from_utf8
     match parseHex h with
     | some b => showBool (Utf8.validB b)
+    | none => badOp
+  | ["lossy", h] =>
+    -- `to_str` and the lossy / Display text (Spec/Lossy.lean); the harness answers with the crate's
+    -- `Path::to_str`, `to_string_lossy` and `display()` and checks them against real std
+    match parseHex h with
+    | some b =>
+      let s := match C19.toStr b with
+        | some x => hexOf x
+        | none => "none"
+      s!"str={s} lossy={hexOf (C19.display b)}"
     | none => badOp
   | ["stdcomps", h] =>
     -- the *specification* (Spec/StdSpec.lean); the harness answers with real std::path
